@@ -479,6 +479,19 @@ def rule_vcs_output_verbatim(ck: Check, repo: Repo, rid: str) -> None:
                 if ast.unparse(sub.slice) != ":-1":
                     r.violation(q, f"VCS output is cut with {ast.unparse(sub.slice)}", "only the final newline may be removed",
                                 repo.loc(sub))
+        # decoding: the names are compared with what os.walk yields (os.fsdecode: UTF-8 + surrogateescape).  A lossy error
+        # mode maps every undecodable byte to the same replacement, so the decoded name can never equal the walked one
+        for c in ast.walk(fn):
+            if isinstance(c, ast.Call) and isinstance(c.func, ast.Attribute) and c.func.attr == "decode" and repo.enclosing_function(c) is fn:
+                mode = next((kw.value for kw in c.keywords if kw.arg == "errors"), c.args[1] if len(c.args) >= 2 else None)
+                val = mode.value if isinstance(mode, ast.Constant) else (None if mode is None else ast.unparse(mode))
+                n += 1
+                r.instance(f"{q}:{ast.unparse(c)[:50]}", {"function": q, "call": ast.unparse(c)[:80], "errors": val or "strict"}, q)
+                if val in ("replace", "ignore", "backslashreplace", "xmlcharrefreplace", "namereplace"):
+                    r.violation(q, f"VCS output is decoded with errors={val!r}",
+                                f"`{ast.unparse(c)[:70]}`: a file name that is not valid UTF-8 is altered by the decoding and no longer equals"
+                                f" the name the directory walk yields - an ignored file `secret_caf\\xe9.py` is not recognised as ignored"
+                                f" and is linted / annotated like a covered file", repo.loc(c))
     r.floor(3, "trimming sites on VCS output", got=n)
 
 
@@ -638,6 +651,10 @@ def rule_forwarding(ck: Check, repo: Repo) -> None:
         ctor = "cls" if caller.endswith("from_directory") else "Project"
         calls = find_calls(fn, lambda c, f: f == ctor)
         if not calls:
+            if caller.endswith("_MultiprocessingContainer.__init__"):
+                # the container keeps the caller's Project instead of building a copy: no flags can get lost on the way
+                r.instance(f"{caller}:no-copy", {"caller": caller, "constructs_project": False}, caller)
+                continue
             raise AnalysisError(f"{caller}: Project construction vanished")
         for c in calls:
             for p, expected in want.items():
